@@ -201,7 +201,7 @@ Proof.
   destruct (validated _) as [p2|] eqn:Ev; cbn [rbind] in Hop; [|discriminate].
   apply validated_ok in Ev. subst p2. injection Hop as <- <- <-.
   cbn [sectors unproven faults recoveries terminated recovering_power].
-  split; [|repeat split; reflexivity].
+  split; [|repeat split; try reflexivity; apply seteq_L; clear; set_solver].
   destruct HP. unfold live_sectors in *.
   constructor; cbn [sectors unproven faults recoveries terminated expirations early_terminated
                     live_power unproven_power p_faulty_power recovering_power]; try assumption.
@@ -212,7 +212,7 @@ Proof.
   - clear -pi_unproven_terminated. set_solver.
   - clear -pi_faults_terminated HL. set_solver.
   - rewrite pi_unproven_power.
-    rewrite (spow_add_eq tbl (unproven p) (unproven p ∖ X) (X ∩ unproven p)).
+    rewrite (spow_add_eq tbl (unproven p) (unproven p ∖ (X ∩ unproven p)) (X ∩ unproven p)).
     + apply pp_eq; cbn; lia.
     + intros n. destruct (decide (n ∈ X)); set_solver.
     + clear. set_solver.
@@ -251,6 +251,20 @@ Proof.
   intros HP Hl. destruct (load_sectors_spec tbl X l (pi_keyed _ _ _ HP) Hl) as (A & _ & B & C). auto.
 Qed.
 
+Lemma retract_inv qs tbl p1 (retracted : gset N) rs :
+  PartInv qs tbl p1 -> retracted ⊆ recoveries p1 -> load_sectors tbl retracted = Ok rs ->
+  let p2 := match rs with [] => p1 | _ => remove_recoveries p1 retracted (sum_pow rs) end in
+  PartInv qs tbl p2 /\ sectors p2 = sectors p1 /\ faults p2 = faults p1 /\
+  unproven p2 = unproven p1 /\ terminated p2 = terminated p1.
+Proof.
+  intros HP1 HR El2. destruct (load_from_live _ _ _ _ _ HP1 El2) as (Hft2 & Hnd2 & Hn2).
+  destruct rs as [|r0 rs0]; [cbn zeta; split; [exact HP1|repeat split]|].
+  cbn zeta iota.
+  rewrite (sum_pow_from_tbl tbl _ Hft2 Hnd2), Hn2.
+  split; [apply remove_recoveries_inv; assumption|].
+  pose proof (remove_recoveries_fields p1 retracted (spow tbl retracted)) as Hf. cbn zeta in Hf. tauto.
+Qed.
+
 Lemma p_record_faults_inv qs tbl p nums fault_exp p' nf delta nfp :
   PartInv qs tbl p ->
   p_record_faults qs tbl p nums fault_exp = Ok (p', nf, delta, nfp) ->
@@ -263,46 +277,36 @@ Proof.
   intros HP Hop. unfold p_record_faults in Hop.
   destruct (subset nums (sectors p)) eqn:Esub; cbn [negb] in Hop; [|discriminate].
   apply subset_true in Esub.
-  set (retracted := recoveries p ∩ nums) in *.
-  set (new_faults := ((nums ∖ retracted) ∖ terminated p) ∖ faults p) in *.
+  remember (recoveries p ∩ nums) as retracted eqn:Eret.
+  remember (((nums ∖ retracted) ∖ terminated p) ∖ faults p) as new_faults eqn:Enf0.
   assert (Enf : new_faults = (nums ∖ terminated p) ∖ faults p).
-  { subst new_faults retracted. apply seteq_L. pose proof (pi_rec_faults _ _ _ HP). clear -H. set_solver. }
+  { apply seteq_L. pose proof (pi_rec_faults _ _ _ HP). clear -H Enf0 Eret. set_solver. }
+  clear Enf0.
   destruct (load_sectors tbl new_faults) as [nfs|] eqn:El1; cbn [rbind] in Hop; [|discriminate].
   destruct (load_from_live _ _ _ _ _ HP El1) as (Hft1 & Hnd1 & Hn1).
   assert (HnfL : new_faults ⊆ live_sectors p).
   { rewrite Enf. unfold live_sectors. clear -Esub. set_solver. }
   assert (HnfF : new_faults ## faults p) by (rewrite Enf; clear; set_solver).
-  (* add the new faults *)
-  assert (Hstep1 : exists p1,
-            (match nfs with [] => Ok (p, pp0, pp0)
-             | _ => p_add_faults qs p new_faults nfs fault_exp end) = Ok (p1, delta, nfp) /\
-            PartInv qs tbl p1 /\ sectors p1 = sectors p /\ terminated p1 = terminated p /\
-            recoveries p1 = recoveries p /\ faults p1 = faults p ∪ new_faults /\
-            unproven p1 = unproven p ∖ new_faults /\ nfp = spow tbl new_faults /\
-            delta = pp_add (pp_neg (spow tbl new_faults)) (spow tbl (new_faults ∩ unproven p)) /\
-            (LET retracted_secs <- load_sectors tbl retracted IN
-             let p2 := match retracted_secs with
-                       | [] => p1
-                       | _ => remove_recoveries p1 retracted (sum_pow retracted_secs)
-                       end in
-             LET p3 <- validated p2 IN Ok (p3, new_faults, delta, nfp)) = Ok (p', nf, delta, nfp)).
-  { destruct nfs as [|s0 nfs0] eqn:Enfs.
-    - cbn [rbind] in Hop. exists p.
-      assert (new_faults = ∅) by (rewrite <- Hn1; reflexivity).
-      destruct (load_sectors tbl retracted) as [rs|] eqn:El2; cbn [rbind] in Hop; [|discriminate].
-      destruct (validated _) as [p3|] eqn:Ev; cbn [rbind] in Hop; [|discriminate].
-      injection Hop as <- <- <- <-.
-      split; [reflexivity|]. split; [exact HP|]. rewrite H.
-      split; [reflexivity|]. split; [reflexivity|]. split; [reflexivity|].
-      split; [apply seteq_L; clear; set_solver|]. split; [apply seteq_L; clear; set_solver|].
-      split; [symmetry; apply spow_empty|]. split.
-      + replace (∅ ∩ unproven p) with (∅ : gset N) by (apply seteq_L; clear; set_solver).
-        rewrite spow_empty. reflexivity.
-      + rewrite El2. cbn [rbind]. rewrite Ev. cbn [rbind]. rewrite H. reflexivity.
-    - rewrite <- Enfs in *.
-      destruct (p_add_faults qs p new_faults nfs fault_exp) as [[[p1 d1] n1]|] eqn:Ea;
-        cbn [rbind] in Hop; [|destruct nfs; discriminate].
-      assert (Hop' : rbind (Ok (p1, d1, n1)) (fun '(p1, delta, new_faulty) =>
+  assert (HnfS : new_faults ⊆ sectors p) by (rewrite Enf; clear -Esub; set_solver).
+  destruct nfs as [|s0 nfs0].
+  - (* no new fault *)
+    cbn [rbind] in Hop.
+    assert (E0 : new_faults = ∅) by (rewrite <- Hn1; reflexivity).
+    destruct (load_sectors tbl retracted) as [rs|] eqn:El2; cbn [rbind] in Hop; [|discriminate].
+    destruct (retract_inv qs tbl p retracted rs HP) as (HP2 & S2 & F2 & U2 & T2);
+      [rewrite Eret; clear; set_solver|exact El2|].
+    destruct (validated _) as [p3|] eqn:Ev; cbn [rbind] in Hop; [|discriminate].
+    apply validated_ok in Ev. subst p3. injection Hop as <- <- <- <-.
+    split; [exact HP2|]. rewrite S2, T2, F2, U2.
+    split; [reflexivity|]. split; [reflexivity|].
+    split; [rewrite E0; apply seteq_L; clear; set_solver|].
+    split; [rewrite E0; apply seteq_L; clear; set_solver|].
+    split; [exact Enf|]. split; [exact HnfS|].
+    split; [rewrite E0; symmetry; apply spow_empty|]. rewrite E0.
+    replace (∅ ∩ unproven p) with (∅ : gset N) by (apply seteq_L; clear; set_solver).
+    rewrite spow_empty. reflexivity.
+  - remember (s0 :: nfs0) as nfs eqn:Enfs.
+    assert (Hop' : (LET '(p1, delta, new_faulty) <- p_add_faults qs p new_faults nfs fault_exp IN
                 LET retracted_secs <- load_sectors tbl retracted IN
                 let p2 := match retracted_secs with
                           | [] => p1
@@ -310,32 +314,132 @@ Proof.
                           end in
                 LET p3 <- validated p2 IN Ok (p3, new_faults, delta, new_faulty))
               = Ok (p', nf, delta, nfp)).
-      { rewrite <- Hop. destruct nfs; [discriminate|]. reflexivity. }
-      cbn [rbind] in Hop'.
-      destruct (p_add_faults_inv qs tbl p new_faults nfs fault_exp p1 d1 n1 HP Hft1 Hnd1
-                  (eq_sym Hn1) HnfL HnfF Ea) as (HP1 & A1 & A2 & A3 & A4 & A5 & A6 & A7 & A8).
-      destruct (load_sectors tbl retracted) as [rs|] eqn:El2; cbn [rbind] in Hop'; [|discriminate].
-      destruct (validated _) as [p3|] eqn:Ev; cbn [rbind] in Hop'; [|discriminate].
-      injection Hop' as <- <- <- <-.
-      exists p1. split; [destruct nfs; [discriminate|reflexivity]|].
-      split; [exact HP1|]. repeat (split; [assumption|]).
-      rewrite Ev. reflexivity. }
-  destruct Hstep1 as (p1 & _ & HP1 & S1 & T1 & R1 & F1 & U1 & Enfp & Edelta & Hrest).
-  destruct (load_sectors tbl retracted) as [rs|] eqn:El2; cbn [rbind] in Hrest; [|discriminate].
+    { rewrite <- Hop. rewrite Enfs. reflexivity. }
+    clear Hop.
+    destruct (p_add_faults qs p new_faults nfs fault_exp) as [[[p1 d1] n1]|] eqn:Ea;
+      cbn [rbind] in Hop'; [|discriminate].
+    destruct (p_add_faults_inv qs tbl p new_faults nfs fault_exp p1 d1 n1 HP Hft1 Hnd1
+                (eq_sym Hn1) HnfL HnfF Ea) as (HP1 & A1 & A2 & A3 & A4 & A5 & A6 & A7 & A8).
+    destruct (load_sectors tbl retracted) as [rs|] eqn:El2; cbn [rbind] in Hop'; [|discriminate].
+    destruct (retract_inv qs tbl p1 retracted rs HP1) as (HP2 & S2 & F2 & U2 & T2);
+      [rewrite A3, Eret; clear; set_solver|exact El2|].
+    destruct (validated _) as [p3|] eqn:Ev; cbn [rbind] in Hop'; [|discriminate].
+    apply validated_ok in Ev. subst p3. injection Hop' as <- <- <- <-.
+    split; [exact HP2|]. rewrite S2, T2, F2, U2, A1, A2, A5, A6.
+    repeat split; assumption.
+Qed.
+
+(* ---------- record_skipped_faults ---------- *)
+Lemma p_record_skipped_faults_inv qs tbl p fault_exp skipped p' delta nfp rrp hnf :
+  PartInv qs tbl p ->
+  p_record_skipped_faults qs tbl p fault_exp skipped = Ok (p', delta, nfp, rrp, hnf) ->
+  let nf := (skipped ∖ terminated p) ∖ faults p in
+  PartInv qs tbl p' /\
+  sectors p' = sectors p /\ terminated p' = terminated p /\
+  faults p' = faults p ∪ nf /\ unproven p' = unproven p ∖ nf /\ nf ⊆ sectors p /\
+  nfp = spow tbl nf /\ delta = pp_add (pp_neg (spow tbl nf)) (spow tbl (nf ∩ unproven p)) /\
+  rrp = spow tbl (recoveries p ∩ skipped).
+Proof.
+  intros HP Hop nf. unfold p_record_skipped_faults in Hop.
+  destruct (set_empty skipped) eqn:Ee.
+  { apply set_empty_true in Ee. injection Hop as <- <- <- <- <-.
+    assert (E0 : nf = ∅) by (subst nf skipped; apply seteq_L; clear; set_solver).
+    rewrite E0. split; [exact HP|]. split; [reflexivity|]. split; [reflexivity|].
+    split; [apply seteq_L; clear; set_solver|]. split; [apply seteq_L; clear; set_solver|].
+    split; [clear; set_solver|]. split; [symmetry; apply spow_empty|].
+    replace (∅ ∩ unproven p) with (∅ : gset N) by (apply seteq_L; clear; set_solver).
+    rewrite spow_empty. split; [reflexivity|].
+    rewrite <- (spow_empty tbl). apply spow_eq. rewrite Ee. clear. set_solver. }
+  destruct (subset skipped (sectors p)) eqn:Esub; cbn [negb] in Hop; [|discriminate].
+  apply subset_true in Esub.
+  remember (recoveries p ∩ skipped) as retracted eqn:Eret.
+  destruct (load_sectors tbl retracted) as [rs|] eqn:El2; cbn [rbind] in Hop; [|discriminate].
   destruct (load_from_live _ _ _ _ _ HP El2) as (Hft2 & Hnd2 & Hn2).
-  destruct (validated _) as [p3|] eqn:Ev; cbn [rbind] in Hrest; [|discriminate].
-  apply validated_ok in Ev. subst p3. injection Hrest as <- <-.
-  assert (HRsub : retracted ⊆ recoveries p1) by (rewrite R1; subst retracted; clear; set_solver).
-  assert (Hp2 : PartInv qs tbl (match rs with [] => p1
-                | _ => remove_recoveries p1 retracted (sum_pow rs) end) /\
-          let p2 := (match rs with [] => p1 | _ => remove_recoveries p1 retracted (sum_pow rs) end) in
-          sectors p2 = sectors p1 /\ faults p2 = faults p1 /\ unproven p2 = unproven p1 /\
-          terminated p2 = terminated p1).
-  { destruct rs as [|r0 rs0] eqn:Ers; [split; [exact HP1|repeat split]|]. rewrite <- Ers in *.
-    rewrite (sum_pow_from_tbl tbl rs Hft2 Hnd2), Hn2.
-    split; [apply remove_recoveries_inv; assumption|].
-    pose proof (remove_recoveries_fields p1 retracted (spow tbl retracted)) as Hf. cbn zeta in Hf. tauto. }
-  destruct Hp2 as (HP2 & S2 & F2 & U2 & T2).
-  split; [exact HP2|]. rewrite S2, T2, F2, U2, S1, T1, F1, U1.
-  repeat split; try assumption. rewrite Enf. clear -Esub. set_solver.
+  fold nf in Hop.
+  destruct (load_sectors tbl nf) as [nfs|] eqn:El1; cbn [rbind] in Hop; [|discriminate].
+  destruct (load_from_live _ _ _ _ _ HP El1) as (Hft1 & Hnd1 & Hn1).
+  assert (HnfL : nf ⊆ live_sectors p) by (subst nf; unfold live_sectors; clear -Esub; set_solver).
+  assert (HnfF : nf ## faults p) by (subst nf; clear; set_solver).
+  destruct (p_add_faults qs p nf nfs fault_exp) as [[[p1 d1] n1]|] eqn:Ea; cbn [rbind] in Hop; [|discriminate].
+  destruct (p_add_faults_inv qs tbl p nf nfs fault_exp p1 d1 n1 HP Hft1 Hnd1
+              (eq_sym Hn1) HnfL HnfF Ea) as (HP1 & A1 & A2 & A3 & A4 & A5 & A6 & A7 & A8).
+  rewrite (sum_pow_from_tbl tbl rs Hft2 Hnd2), Hn2 in Hop.
+  destruct (validated _) as [p3|] eqn:Ev; cbn [rbind] in Hop; [|discriminate].
+  apply validated_ok in Ev. subst p3. injection Hop as <- <- <- <- _.
+  pose proof (remove_recoveries_fields p1 retracted (spow tbl retracted)) as Hf. cbn zeta in Hf.
+  destruct Hf as (S2 & F2 & U2 & T2 & _).
+  split.
+  { apply remove_recoveries_inv; [exact HP1|]. rewrite A3, Eret. clear. set_solver. }
+  rewrite S2, T2, F2, U2, A1, A2, A5, A6.
+  repeat split; try assumption. subst nf. clear -Esub. set_solver.
+Qed.
+
+(* ---------- declare_faults_recovered ---------- *)
+Lemma p_declare_faults_recovered_inv qs tbl p nums p' :
+  PartInv qs tbl p ->
+  p_declare_faults_recovered tbl p nums = Ok p' ->
+  PartInv qs tbl p' /\ sectors p' = sectors p /\ faults p' = faults p /\
+  unproven p' = unproven p /\ terminated p' = terminated p /\
+  live_power p' = live_power p /\ unproven_power p' = unproven_power p /\
+  p_faulty_power p' = p_faulty_power p.
+Proof.
+  intros HP Hop. unfold p_declare_faults_recovered in Hop.
+  destruct (subset nums (sectors p)); cbn [negb] in Hop; [|discriminate].
+  remember ((nums ∩ faults p) ∖ recoveries p) as recs eqn:Erecs.
+  destruct (load_sectors tbl recs) as [rs|] eqn:El; cbn [rbind] in Hop; [|discriminate].
+  destruct (load_from_live _ _ _ _ _ HP El) as (Hft & Hnd & Hn).
+  apply validated_ok in Hop. subst p'. cbn. split; [|repeat split].
+  destruct HP. constructor; cbn; try assumption.
+  - clear -pi_rec_faults Erecs. set_solver.
+  - rewrite pi_recovering_power, (sum_pow_from_tbl tbl rs Hft Hnd), Hn. symmetry.
+    apply spow_add_eq; [reflexivity|clear -Erecs; set_solver].
+Qed.
+
+(* ---------- recover_faults ---------- *)
+Lemma p_recover_faults_inv qs tbl p p' pw :
+  PartInv qs tbl p ->
+  p_recover_faults qs tbl p = Ok (p', pw) ->
+  PartInv qs tbl p' /\ sectors p' = sectors p /\ faults p' = faults p ∖ recoveries p /\
+  unproven p' = unproven p /\ terminated p' = terminated p /\ pw = spow tbl (recoveries p).
+Proof.
+  intros HP Hop. unfold p_recover_faults in Hop.
+  destruct (load_sectors tbl (recoveries p)) as [rs|] eqn:El; cbn [rbind] in Hop; [|discriminate].
+  destruct (load_from_live _ _ _ _ _ HP El) as (Hft & Hnd & Hn).
+  destruct (reschedule_recovered qs (expirations p) rs) as [[q pw0]|] eqn:Er; cbn [rbind] in Hop; [|discriminate].
+  destruct (partinv_sub _ _ _ HP) as (SF & SU & SR).
+  destruct (reschedule_recovered_inv qs tbl (faults p) (live_sectors p) rs (pi_unit _ _ _ HP) Hft Hnd)
+    with (q := expirations p) (q' := q) (pw := pw0) as (HQ & ->).
+  - rewrite Hn. apply (pi_rec_faults _ _ _ HP).
+  - rewrite Hn. exact SR.
+  - apply (pi_queue _ _ _ HP).
+  - exact Er.
+  - rewrite Hn in *.
+    destruct (validated _) as [p2|] eqn:Ev; cbn [rbind] in Hop; [|discriminate].
+    apply validated_ok in Ev. subst p2. injection Hop as <- <-. cbn.
+    split; [|repeat split]. destruct HP. constructor; cbn; try assumption.
+    + clear. set_solver.
+    + clear -pi_faults_sectors. set_solver.
+    + clear -pi_unproven_faults. set_solver.
+    + clear -pi_faults_terminated. set_solver.
+    + rewrite pi_faulty_power.
+      rewrite (spow_add_eq tbl (faults p) (faults p ∖ recoveries p) (recoveries p)).
+      * apply pp_eq; cbn; lia.
+      * intros n. destruct (decide (n ∈ recoveries p)); set_solver.
+      * clear. set_solver.
+    + rewrite pi_recovering_power, spow_empty. apply pp_eq; cbn; lia.
+Qed.
+
+(* ---------- activate_unproven ---------- *)
+Lemma p_activate_unproven_inv qs tbl p p' pw :
+  PartInv qs tbl p -> p_activate_unproven p = (p', pw) ->
+  PartInv qs tbl p' /\ sectors p' = sectors p /\ faults p' = faults p /\ unproven p' = ∅ /\
+  terminated p' = terminated p /\ pw = spow tbl (unproven p).
+Proof.
+  intros HP. unfold p_activate_unproven. intros [= <- <-]. cbn.
+  split; [|repeat split; apply (pi_unproven_power _ _ _ HP)].
+  destruct HP. constructor; cbn; try assumption.
+  - clear. set_solver.
+  - clear. set_solver.
+  - clear. set_solver.
+  - symmetry. apply spow_empty.
 Qed.
